@@ -226,7 +226,8 @@ def run_shard(pid, tier, seed, n, shrink_budget):
         pass
     except BaseException as e:  # noqa
         if state["best"] is None:
-            result["error"] = "".join(traceback.format_exception(type(e), e, e.__traceback__))[-4000:]
+            tb = "".join(traceback.format_exception(type(e), e, e.__traceback__))
+            result["error"] = tb.split("Failing test case:")[0][-2500:]
     if state["best"] is not None:
         # confirm outside Hypothesis
         try:
@@ -495,8 +496,10 @@ def run_check(pid, tier, a):
     if uniq:
         return 1
     if errors:
-        for e in errors:
-            print("HARNESS ERROR: %s" % e, file=sys.stderr)
+        for e in errors[:3]:
+            print("HARNESS ERROR: %s" % (e if len(e) < 1800 else e[:900] + "\n...\n" + e[-700:]), file=sys.stderr)
+        if len(errors) > 3:
+            print("HARNESS ERROR: ... and %d more" % (len(errors) - 3), file=sys.stderr)
         return 2
     if inconclusive:
         print("note: %d shard(s) stopped by the time budget (inconclusive, not a violation)" % inconclusive)
